@@ -274,6 +274,18 @@ void    finish_rule (int mach, bool variable_trail_rule, int headcnt, int trailc
 		}
 	}
 
+}
+
+
+/* begin_rule_action - open the action text of the rule just finished
+ *
+ * Called once the scanner has seen what follows the pattern, so that
+ * continued_action is that of this rule whether or not the parser needed
+ * a look-ahead token to reduce the pattern (it does not after '$').
+ */
+
+void    begin_rule_action (void)
+{
 	/* Okay, in the action code at this point yytext and yyleng have
 	 * their proper final values for this rule, so here's the point
 	 * to do any user action.  But don't do it for continued actions,
@@ -282,8 +294,14 @@ void    finish_rule (int mach, bool variable_trail_rule, int headcnt, int trailc
 	if (!continued_action)
 		add_action ("M4_HOOK_SET_RULE_SETUP\n");
 
-	line_directive_out(NULL, infilename, linenum);
-        add_action("[[");
+	/* A '|' action's line has already been counted. */
+	line_directive_out(NULL, infilename,
+			   continued_action ? linenum - 1 : linenum);
+	add_action("[[");
+
+	/* A '|' action has no text of its own. */
+	if (continued_action)
+		add_action("]]");
 }
 
 
